@@ -124,11 +124,17 @@ def _run_unit(modname, unit_name, tier, seed):
                assumptions=[], trusted=[], bounded=[], seconds=0.0, crashed=None, functions={}, kind="",
                extra={}, concrete=[])
     try:
+        if os.environ.get("PYVC_TEST_CRASH_ONCE") == unit_name:
+            flag = os.path.join(os.environ.get("VERIF_EVIDENCE_DIR", "/tmp"), f".crash-once-{unit_name}")
+            if not os.path.exists(flag):
+                open(flag, "w").close()
+                raise RuntimeError("injected crash (PYVC_TEST_CRASH_ONCE)")
         mod = importlib.import_module(modname)
         unit = mod.UNITS[unit_name]
         res["kind"] = unit.kind
         ctx = UnitCtx(unit, tier, seed)
-        ctx.ex.deadline = time.time() + (unit.budget_s if tier == "quick" else 4 * unit.budget_s)
+        factor = float(os.environ.get("PYVC_BUDGET_FACTOR", "1"))
+        ctx.ex.deadline = time.time() + factor * (unit.budget_s if tier == "quick" else 4 * unit.budget_s)
         unit.fn(ctx, *unit.args)
         ex = ctx.ex
         res["obligations"] = [o.as_dict() for o in ex.obligations]
@@ -163,7 +169,7 @@ def _crashed_result(n, why):
                 seconds=0.0, crashed=why, functions={}, kind="", extra={}, concrete=[])
 
 
-def run_pool(tasks, jobs, progress=None, stall_s=None):
+def run_pool(tasks, jobs, progress=None, stall_s=None, _retry=True):
     """tasks: list of (key, modname, unit name, tier, seed).  Runs them in a process pool and returns {key: result}.
     The pool uses the *spawn* start method: forking a parent that already runs helper threads (the executor's own queue
     threads, z3) has deadlocked workers in a futex on this image.  A watchdog turns a stalled pool (no unit finishing for
@@ -203,6 +209,26 @@ def run_pool(tasks, jobs, progress=None, stall_s=None):
                 pending = set()
     finally:
         pool.shutdown(wait=False, cancel_futures=True)
+    # a crashed unit (worker died, transient failure of a helper process) is run once more in a fresh pool before the
+    # crash is reported; the first failure is kept in the unit's notes
+    def _timed_out(r):
+        return any("time budget of the unit exceeded" in str(u) for u in r.get("unsupported", []))
+    again = [t for t in tasks if results.get(t[0], {}).get("crashed") or _timed_out(results.get(t[0], {}))] if _retry else []
+    if again:
+        first = {t[0]: (results[t[0]]["crashed"] or "time budget of the unit exceeded") for t in again}
+        old_f = os.environ.get("PYVC_BUDGET_FACTOR")
+        os.environ["PYVC_BUDGET_FACTOR"] = "3"          # a unit that ran out of time under load gets a longer second attempt
+        try:
+            second = run_pool(again, min(jobs, 4), progress, stall_s, _retry=False)
+        finally:
+            if old_f is None:
+                os.environ.pop("PYVC_BUDGET_FACTOR", None)
+            else:
+                os.environ["PYVC_BUDGET_FACTOR"] = old_f
+        for key, r in second.items():
+            if not r.get("crashed") and not _timed_out(r):
+                r.setdefault("notes", []).append(f"first attempt of this unit failed and was repeated: {str(first[key]).strip().splitlines()[-1][:200]}")
+            results[key] = r
     return results
 
 
